@@ -2,11 +2,47 @@
 package main
 
 import (
+	"bytes"
 	"fmt"
+	"io"
 	"os"
+	"os/exec"
+	"regexp"
 
 	"verif/mc/props"
 )
+
+var rxVerdict = regexp.MustCompile(`(?m)^C\d\d\w* tier=\S+ evaluations=`)
+
+// guard runs the check in a child process. Several checks call go-swagger code in-process; if that code
+// ends the process (log.Fatal, os.Exit, a fatal runtime error) the child dies without a verdict. The
+// guard turns that into an explicit harness error (exit 2) instead of a bare non-zero exit.
+func guard() int {
+	cmd := exec.Command(os.Args[0], os.Args[1:]...)
+	cmd.Env = append(os.Environ(), "VERIF_GUARDED=1")
+	var out bytes.Buffer
+	cmd.Stdout = io.MultiWriter(os.Stdout, &out)
+	var errb bytes.Buffer
+	cmd.Stderr = io.MultiWriter(os.Stderr, &errb)
+	cmd.Stdin = os.Stdin
+	err := cmd.Run()
+	code := 0
+	if ee, ok := err.(*exec.ExitError); ok {
+		code = ee.ExitCode()
+	} else if err != nil {
+		fmt.Fprintln(os.Stderr, "HARNESS:", err)
+		return 2
+	}
+	if (code == 0 || code == 1) && !rxVerdict.Match(out.Bytes()) {
+		tail := errb.String()
+		if len(tail) > 1500 {
+			tail = tail[len(tail)-1500:]
+		}
+		fmt.Fprintf(os.Stderr, "HARNESS: the check process ended (exit %d) without reaching a verdict - code under test ended the process (log.Fatal / os.Exit / fatal error)? last output:\n%s\n", code, tail)
+		return 2
+	}
+	return code
+}
 
 func main() {
 	if len(os.Args) < 2 {
@@ -32,6 +68,9 @@ func main() {
 	}
 	if id == "--worker" {
 		os.Exit(props.Worker(os.Args[2:]))
+	}
+	if os.Getenv("VERIF_GUARDED") == "" && replay == "" {
+		os.Exit(guard())
 	}
 	f, ok := props.Registry[id]
 	if !ok {
